@@ -390,9 +390,8 @@ impl<'a> Walk<'a> {
 
     /// Records a visit of the entry. Returns false if the entry needs no visit, because
     /// it has been visited before. A directory or a link reached again at a smaller nesting level
-    /// than before is visited again: more of its subtree is within the depth limit now, and a path
-    /// given by the user as an input path (level 0) is visited regardless of which other
-    /// input path led to it first.
+    /// than before is visited again: more of its subtree is within the depth limit now.
+    /// Without a depth limit the first visit has covered the whole subtree already.
     fn mark_visited<F>(
         &self,
         path: &Path,
@@ -406,7 +405,8 @@ impl<'a> Walk<'a> {
             .visited
             .entry((path.hash128(), gitignore.id()))
             .and_modify(|visited_level| {
-                if tpe != EntryType::File && level < *visited_level {
+                let limited = self.depth != usize::MAX;
+                if limited && tpe != EntryType::File && level < *visited_level {
                     *visited_level = level;
                     visit = true;
                 }
